@@ -5,6 +5,7 @@ R(id, pat, f, n, m, nm) == [id |-> id, pat |-> pat, filters |-> f, names |-> n, 
 \* shared and split prefixes, wildcard siblings, a root-level wildcard, an int filter that clashes with it
 U_q == {
   R("r1", <<a, d>>, <<>>, <<>>, {"GET"}, "n1"),
+  R("r1b", <<a, d>>, <<>>, <<>>, {"ANY", "POST"}, ""),      \* a second rule on the same pattern: other handler for ANY
   R("r2", <<a, d, SEP, b>>, <<>>, <<>>, {"GET", "POST"}, "n1"),
   R("r3", <<a, d, SEP, TOKEN>>, <<None>>, <<"x">>, {"ANY"}, "n2"),
   R("r4", <<a, d, b>>, <<>>, <<>>, {"HEAD"}, ""),
